@@ -780,16 +780,72 @@ def gen_formatters() -> List[str]:
                f"emptiness test: {guarded} *)\n"
                f"Definition py_enum_default_guarded : bool := {'true' if guarded else 'false'}.")
     sites = []
+    guarded_all = []
     for lang, cls, rel in (("c", "CFormatter", "c"), ("go", "GoFormatter", "go"), ("py", "PyFormatter", "py")):
         _, t2 = _src(f"compiler/bitproto/renderer/impls/{rel}/formatter.py")
         f2 = find_func(t2, "format_int_value", cls)
         b2 = strip_doc(f2)
-        if not (len(b2) == 1 and isinstance(b2[0], ast.Return)
-                and ast.unparse(b2[0].value) in ("'{0}'.format(value)", "str(value)", "f'{value}'")):
+        plain = ("'{0}'.format(value)", "str(value)", "f'{value}'")
+        if len(b2) == 1 and isinstance(b2[0], ast.Return) and ast.unparse(b2[0].value) in plain:
+            guarded_all.append(False)
+        elif (len(b2) == 1 and isinstance(b2[0], ast.Try) and len(b2[0].body) == 1
+              and isinstance(b2[0].body[0], ast.Return) and ast.unparse(b2[0].body[0].value) in plain
+              and len(b2[0].handlers) == 1 and isinstance(b2[0].handlers[0].type, ast.Name)
+              and b2[0].handlers[0].type.id == "ValueError" and len(b2[0].handlers[0].body) == 1
+              and isinstance(b2[0].handlers[0].body[0], ast.Raise)
+              and isinstance(b2[0].handlers[0].body[0].exc, ast.Call)
+              and ast.unparse(b2[0].handlers[0].body[0].exc.func) == "RendererError"
+              and not b2[0].orelse and not b2[0].finalbody):
+            guarded_all.append(True)
+        else:
             raise Broken(f"translator(C09): {cls}.format_int_value has an unrecognised shape", ast.unparse(f2)[:300])
         sites.append(f"({cstr(lang)}, {f2.lineno}%nat)")
-    out.append("(* format_int_value of the three formatters is a plain decimal conversion (str of an int) *)\n"
-               f"Definition format_int_value_sites : list (string * nat) := {clist(sites)}.")
+    if len(set(guarded_all)) != 1:
+        raise Broken("translator(C09): the three format_int_value implementations differ in how they treat ValueError")
+    out.append("(* format_int_value of the three formatters is a plain decimal conversion (str of an int);\n"
+               "   guarded: a ValueError is turned into a RendererError *)\n"
+               f"Definition format_int_value_sites : list (string * nat) := {clist(sites)}.\n"
+               f"Definition format_int_value_guarded : bool := {'true' if guarded_all[0] else 'false'}.")
+    return out
+
+
+def gen_source_reading(t_par: ast.Module, parser_errors: Set[str]) -> List[str]:
+    """Parser.parse (how the file is read) and p_import (is a NUL in the path refused first?)"""
+    out = []
+    fn = find_func(t_par, "parse", "Parser")
+    body = strip_doc(fn)
+    txt = ast.unparse(fn)
+    plain = (len(body) == 1 and isinstance(body[0], ast.With)
+             and ast.unparse(body[0].items[0].context_expr) in ("open(filepath)", "open(filepath, encoding='utf-8')")
+             and len(body[0].body) == 1 and isinstance(body[0].body[0], ast.Return))
+    guarded = False
+    if not plain:
+        ok = (len(body) == 2 and isinstance(body[0], ast.Try) and len(body[0].handlers) == 1
+              and isinstance(body[0].handlers[0].type, ast.Name) and body[0].handlers[0].type.id == "UnicodeDecodeError"
+              and len(body[0].handlers[0].body) == 1 and isinstance(body[0].handlers[0].body[0], ast.Raise)
+              and isinstance(body[0].handlers[0].body[0].exc, ast.Call)
+              and isinstance(body[0].handlers[0].body[0].exc.func, ast.Name)
+              and body[0].handlers[0].body[0].exc.func.id in parser_errors
+              and "open(filepath" in ast.unparse(body[0]) and isinstance(body[1], ast.Return))
+        if not ok:
+            raise Broken("translator(C09): Parser.parse has an unrecognised shape", txt[:400])
+        guarded = True
+    out.append(f"(* parser.py:{fn.lineno}-{fn.end_lineno}  Parser.parse reads the file with open().read(); a "
+               f"UnicodeDecodeError is turned into a ParserError: {guarded} *)\n"
+               f"Definition parse_catches_decode_error : bool := {'true' if guarded else 'false'}.")
+    fi = find_func(t_par, "p_import", "Parser")
+    nul = False
+    for st in strip_doc(fi):
+        if isinstance(st, ast.If) and "'\\x00' in importing_path" in ast.unparse(st.test) and len(st.body) == 1 \
+                and isinstance(st.body[0], ast.Raise) and isinstance(st.body[0].exc, ast.Call) \
+                and isinstance(st.body[0].exc.func, ast.Name) and st.body[0].exc.func.id in parser_errors:
+            nul = True
+            break
+        if any(isinstance(n, ast.Call) and ast.unparse(n.func) in ("self._check_parsing_file", "self.parse_child")
+               for n in ast.walk(st)):
+            break
+    out.append(f"(* parser.py:{fi.lineno}  p_import refuses a NUL in the path before touching the file system: {nul} *)\n"
+               f"Definition import_path_guarded : bool := {'true' if nul else 'false'}.")
     return out
 
 
@@ -934,6 +990,7 @@ def gen_c09() -> Tuple[str, Dict[str, str]]:
 
     out.append(gen_options(t_opt))
     out.extend(gen_formatters())
+    out.extend(gen_source_reading(t_par, parser_errors))
     out.append("")
     out.append("(* notes of the translator:")
     for n in sorted(set(notes)):
